@@ -147,9 +147,11 @@ def gen(stratum, rng, tier):
         # wider bounds: no tightening to binary is allowed.  Rejection-sampled with the exact LP oracle.
         from vf.oracles import lp as olp
 
-        for _ in range(60):
+        want_trap = rng.random() < 0.6
+        for _ in range(150):
             n = rng.randint(2, 3)
-            ints = list(range(n))
+            pseudo = rng.random() < 0.5
+            ints = list(range(n)) if not pseudo else sorted(rng.sample(range(n), rng.randint(1, n - 1)))
             A = [[rng.choice([-2, -1, 0, 1, 2, 3, 4, 5]) for _ in range(n)] for _ in range(rng.randint(1, 3))]
             b = [rng.choice([1, 2, 3, 4, 5, 6, 7]) for _ in A]
             for j in range(n):
@@ -158,9 +160,44 @@ def gen(stratum, rng, tier):
                 A.append(row)
                 b.append(rng.choice([2, 3]))
             c = [rng.choice([1, 2, 3, 4, 5, -1, -2]) for _ in range(n)]
+            if pseudo:
+                # structured family: integer x_j with rows "x_j - a*y <= 1" (right-hand side 1, the only *integer*
+                # entry is +1, but a continuous variable relaxes it: NOT an upper bound x_j <= 1), a tight coupling
+                # row that makes the LP optimum fractional inside the unit box, y penalised lightly
+                k = rng.randint(1, 2)
+                n = k + 1
+                ints = list(range(k))
+                A, b = [], []
+                for j in ints:
+                    row = [0] * n
+                    row[j] = 1
+                    if j == 0 or rng.random() < 0.6:
+                        row[k] = -rng.choice([1, 1, 2])
+                    A.append(row)
+                    b.append(1)
+                A.append([rng.choice([1, 2, 3, 4, 5]) for _ in ints] + [rng.choice([0, 0, -1])])
+                b.append(rng.choice([2, 3, 4, 5]))
+                for j in range(n):
+                    row = [0] * n
+                    row[j] = 1
+                    A.append(row)
+                    b.append(rng.choice([2, 3]))
+                order = list(range(len(A)))
+                rng.shuffle(order)
+                A = [A[i] for i in order]
+                b = [b[i] for i in order]
+                c = [rng.choice([1, 2, 3, 5, 8, 10]) for _ in ints] + [-rng.choice([0, 1, 1, 2])]
+                if minimize:
+                    c = [-v for v in c]
             st, x, _ = olp.solve_exact(c, A, b, minimize)
-            if st == "optimal" and all(0 <= v <= 1 for v in x) and any(v.denominator != 1 for v in x):
-                break
+            if st == "optimal" and all(0 <= x[j] <= 1 for j in ints) and any(x[j].denominator != 1 for j in ints):
+                if not want_trap:
+                    break
+                # trap: the LP optimum sits in the unit box but the true integer optimum needs a value >= 2
+                box = {j: (0, 3) for j in ints}
+                mst, mx, _ = olp.milp_exact(c, A, b, ints, minimize, box)
+                if mst == "optimal" and any(mx[j] >= 2 for j in ints):
+                    break
         configs += [{"heuristics": False}, {"lns_iterations": 2, "seed": 1}]
     elif stratum == "warm":
         _bound_rows(rng, n, A, b, binary=rng.random() < 0.5)
